@@ -2,6 +2,7 @@ package main
 
 import (
 	"bufio"
+	"bytes"
 	"context"
 	"encoding/binary"
 	"encoding/json"
@@ -213,6 +214,36 @@ func cmdCrash(args []string) int {
 			}
 			stats["sign.storechecked"]++
 		}
+		// when a write of protection records has returned, the records are in the files: a copy of the store's
+		// files taken at that instant (what a kill of the process at that instant leaves behind), opened as a
+		// store of its own, holds for the written keys what the live store shows for them
+		storeEvents := 0
+		base := inst.hook
+		verifhook.Set(func(c context.Context, site string, keys [][]byte) error {
+			if (site == "store.post" || site == "batch.post") && len(keys) > 0 {
+				storeEvents++
+				if storeEvents%3 == 1 || cf.tier == "thorough" {
+					img, ierr := crashImage(inst.Dir) // first the files, then the live view (which waits for pending commits)
+					live, lerr := inst.Rules.VerifRaw(ctx)
+					if ierr != nil || lerr != nil {
+						stats["crashimage.unreadable"]++
+					} else {
+						stats["crashimage.checked"]++
+						for _, k := range keys {
+							var k49 [49]byte
+							copy(k49[:], k)
+							if lv, ok := live[k49]; ok && !bytes.Equal(img[string(k)], lv) {
+								hookMu.Lock()
+								monFail = append(monFail, fmt.Sprintf("the write of the record of key#%v (action %d) has returned, the live store shows %x, but the store's files at that instant hold %x for it: a kill now loses an approval that is about to be signed :: %s",
+									inst.keyIDs([][]byte{k}), k[len(k)-1], lv, img[string(k)], curOp))
+								hookMu.Unlock()
+							}
+						}
+					}
+				}
+			}
+			return base(c, site, keys)
+		})
 		for i := 0; i < nOps; i++ {
 			op := g.genSlashingOp(25)
 			if op.Kind == KRestart {
@@ -571,4 +602,54 @@ func lastSite(s []string) string {
 		return "(none)"
 	}
 	return s[len(s)-1]
+}
+
+// crashImage copies the files of a badger directory as they are now and opens the copy as a store of its own:
+// the records a process killed at this instant would find after a restart.
+func crashImage(dir string) (map[string][]byte, error) {
+	cp, err := os.MkdirTemp("", "vh-image-")
+	if err != nil {
+		return nil, err
+	}
+	defer os.RemoveAll(cp)
+	ents, err := os.ReadDir(dir)
+	if err != nil {
+		return nil, err
+	}
+	for _, e := range ents {
+		if e.IsDir() || e.Name() == "LOCK" {
+			continue
+		}
+		b, err := os.ReadFile(filepath.Join(dir, e.Name()))
+		if err != nil {
+			return nil, err
+		}
+		if err := os.WriteFile(filepath.Join(cp, e.Name()), b, 0o600); err != nil {
+			return nil, err
+		}
+	}
+	opt := badger.DefaultOptions(cp)
+	opt.Logger = nil
+	opt.SyncWrites = false
+	opt.Truncate = true
+	db, err := badger.Open(opt)
+	if err != nil {
+		return nil, err
+	}
+	defer db.Close()
+	out := map[string][]byte{}
+	err = db.View(func(txn *badger.Txn) error {
+		it := txn.NewIterator(badger.DefaultIteratorOptions)
+		defer it.Close()
+		for it.Rewind(); it.Valid(); it.Next() {
+			item := it.Item()
+			v, err := item.ValueCopy(nil)
+			if err != nil {
+				return err
+			}
+			out[string(item.KeyCopy(nil))] = v
+		}
+		return nil
+	})
+	return out, err
 }
